@@ -745,7 +745,7 @@ impl<'layout, 'out> TableWriter<'layout, 'out> {
             self.write_ifunc_relocation::<A>(res)?;
         } else {
             *got_entry = if res.flags.is_address() && self.output_kind.is_relocatable() {
-                self.write_address_relocation::<A>(got_address, res.raw_value)?
+                self.write_address_relocation::<A>(got_address, res.raw_value, true)?
             } else {
                 res.raw_value
             };
@@ -763,7 +763,7 @@ impl<'layout, 'out> TableWriter<'layout, 'out> {
             let got_entry = self.take_next_got_entry()?;
             let plt_address = res.plt_address()?;
             *got_entry = if self.output_kind.is_relocatable() {
-                self.write_address_relocation::<A>(ifunc_got_address, plt_address)?
+                self.write_address_relocation::<A>(ifunc_got_address, plt_address, true)?
             } else {
                 plt_address
             };
@@ -1055,16 +1055,23 @@ impl<'layout, 'out> TableWriter<'layout, 'out> {
         &mut self,
         place: u64,
         relative_address: u64,
+        allow_relr: bool,
     ) -> Result<u64> {
         debug_assert_bail!(
             self.output_kind.is_relocatable(),
             "write_address_relocation called when output is not relocatable"
         );
         let e = LittleEndian;
-        // Odd offsets mean bitmaps in RELR, so we need to fall back to RELA for them.
+        // Odd offsets mean bitmaps in RELR, so we need to fall back to RELA for them. `allow_relr`
+        // is computed by the same criterion that layout used when it allocated the entry (see
+        // `elf::relr_eligible`), so that the two always agree.
         if let Some(relr_writer) = &mut self.relr_dyn
-            && place.is_multiple_of(2)
+            && allow_relr
         {
+            debug_assert_bail!(
+                place.is_multiple_of(2),
+                "RELR entry requested for odd address 0x{place:x}"
+            );
             let relr = relr_writer
                 .split_off_first_mut()
                 .ok_or_else(|| insufficient_allocation(".relr.dyn"))?;
@@ -2271,6 +2278,10 @@ fn apply_relocations<
                 is_writable: object_section.is_writable(),
                 section_flags,
                 part_id: object.section_part_id(section_index, &layout.symbol_db.section_part_ids),
+                alignment: object::read::elf::SectionHeader::sh_addralign(
+                    object_section,
+                    LittleEndian,
+                ),
             },
             layout,
             out,
@@ -2518,6 +2529,8 @@ fn write_eh_frame_relocations<'data, A: Arch<Platform = Elf>, R: Relocation>(
                         // .eh_frame relocations never need thunks; use the eh_frame section's
                         // base part as a placeholder so the thunk lookup always misses.
                         part_id: output_section_id::EH_FRAME.base_part_id(),
+                        // Never writable, so never gets relative relocations.
+                        alignment: 1,
                     },
                     layout,
                     entry_out,
@@ -2617,6 +2630,8 @@ struct SectionInfo<S: platform::SectionFlags> {
     is_writable: bool,
     section_flags: S,
     part_id: crate::part_id::PartId,
+    /// The alignment of the input section. Used to decide whether RELR can be used.
+    alignment: u64,
 }
 
 fn get_resolution<'data, R: Relocation>(
@@ -2890,6 +2905,7 @@ fn apply_relocation<
             symbol_index,
             object_layout,
             layout,
+            rel.offset(),
         )?,
         RelocationKind::AbsoluteSet
         | RelocationKind::AbsoluteSetWord6
@@ -3487,6 +3503,7 @@ fn write_absolute_relocation<'data, A: Arch<Platform = Elf>>(
     symbol_index: object::SymbolIndex,
     object_layout: &ObjectLayout<'data, Elf>,
     layout: &ElfLayout,
+    rel_offset: u64,
 ) -> Result<u64> {
     if !section_info.section_flags.is_alloc() {
         resolution.value_with_addend(
@@ -3528,7 +3545,11 @@ fn write_absolute_relocation<'data, A: Arch<Platform = Elf>>(
             &layout.merged_strings,
             &layout.merged_string_start_addresses,
         )?;
-        table_writer.write_address_relocation::<A>(place, address)
+        table_writer.write_address_relocation::<A>(
+            place,
+            address,
+            crate::elf::relr_eligible(section_info.alignment, rel_offset),
+        )
     } else {
         resolution.value_with_addend(
             addend,
